@@ -14,7 +14,7 @@ Common == /\ Rec.ids_out = Rec.ids_in                  \* keyed by the input ide
           /\ Rec.one_set_each /\ Rec.all_finite /\ Rec.shapes_ok
 Sampling == Rec.type = "sampling" =>
    IF Rec.n - Rec.nb <= 0
-     THEN Rec.status \in {"refused", "empty_kept_set_crash"}     \* nothing to average: must be refused (as built: crashes, known finding)
+     THEN Rec.status = "refused"                                  \* nothing to average: the setting is refused
      ELSE /\ Rec.status = "ok" /\ Common
           /\ Rec.kept = [a \in 1..(Rec.n - Rec.nb) |-> Rec.nb + a]        \* exactly the iterations after burn-in
           /\ Rec.nb = Rec.nb_expected
@@ -22,6 +22,9 @@ Sampling == Rec.type = "sampling" =>
           /\ (Rec.algo = "mode" => \A i \in 1..Len(Rec.loss_ranks) :
                  /\ Rec.chosen[i] = Rec.kept[FirstArgmin(Rec.loss_ranks[i])]   \* lowest attachment + regularity, first on ties
                  /\ Rec.mode_values_ok)
-Optim == Rec.type = "optim" => (Rec.status = "ok" /\ Common /\ Rec.never_worse)
+\* the objective is evaluated by the harness AT THE RETURNED parameters of every individual, on that individual's own data:
+\* not worse than at the starting point of its optimisation, and equal to the value reached by ITS optimisation (the values
+\* filed under an identifier are those of that individual)
+Optim == Rec.type = "optim" => (Rec.status = "ok" /\ Common /\ Rec.never_worse /\ Rec.values_belong_to_ids)
 Conforms == Sampling /\ Optim
 =============================================================================
